@@ -25,7 +25,7 @@ ASSUMPTIONS = ["rule docs are not part of the JSON-like form (Rule equality and 
 def gen_case(r):
     d = G.hostile_doc(r, 3)
     n = r.between(0, 4)
-    rules = [G.rule_for(r, d, mode="typed", cast_p=50, cond_depth=2, max_len=3, meaningful=True, jsonable=True)
+    rules = [G.rule_for(r, d, mode="typed", cast_p=50, cond_depth=2, max_len=3, meaningful=True, jsonable=True, labels=True)
              for _ in range(n)]
     # a condition with data-path arguments (modifiers defined on the first document)
     patharg = False
